@@ -10,8 +10,8 @@
 
 char *strndup(const char *s, size_t size) {
 	char *ret;
-	size_t slen = strlen(s);
-	size_t len = slen < size ? slen : size;
+	/* at most size bytes of s may be examined: s need not be terminated */
+	size_t len = strnlen(s, size);
 
 	ret = malloc(len + 1);
 	if (ret == NULL) {
